@@ -1,18 +1,19 @@
 ------------------------------- MODULE LexGen -------------------------------
 (* G phase of C19: the strings every literal emitter is called with.                     *)
 (* All strings of length <= MaxLen over the class alphabet of DESIGN 6 C19, plus all     *)
-(* strings of length MaxLen + 1 over the sub-alphabet SmallAlphabet (the units that take *)
-(* part in escapes: hex-digit neighbours, quotes, backslash, template units), plus       *)
-(* NSample random strings of length SampleLen (TLC's RandomSubset, seeded by -seed).     *)
+(* strings of length SmallLen over a sub-alphabet of the units that take part in escapes *)
+(* (hex-digit neighbours, quotes, backslash, template units), plus random strings of     *)
+(* length 3 and 4 over the class alphabet (TLC's RandomSubset, seeded by -seed).         *)
 EXTENDS Lexers, Json, IOUtils, TLC, Randomization, SequencesExt
-CONSTANTS MaxLen, SmallLen, NSample, SampleLen
+CONSTANTS MaxLen, SmallLen, SmallSize, NSample3, NSample4
 
 Alphabet == ClassAlphabet
 
 StringsOver(A, n) == UNION {[1..k -> A] : k \in 0..n}
-Cases == StringsOver(Alphabet, MaxLen)
-         \cup [1..SmallLen -> SmallAlphabet]
-         \cup (IF NSample = 0 THEN {} ELSE RandomSubset(NSample, [1..SampleLen -> Alphabet]))
+\* NUL U+0001 " \ ` $ { 0 a U+0080 (+ ' x U+00FF U+2028)
+Small == IF SmallSize = 10 THEN {0, 1, 34, 92, 96, 36, 123, 48, 97, 128} ELSE SmallAlphabet
+Sample(n, len) == IF n = 0 THEN {} ELSE RandomSubset(n, [1..len -> Alphabet])
+Cases == StringsOver(Alphabet, MaxLen) \cup [1..SmallLen -> Small] \cup Sample(NSample3, 3) \cup Sample(NSample4, 4)
 
 ASSUME JsonSerialize(IOEnv.VERIF_OUT, SetToSeq(Cases))
 ASSUME PrintT(<<"@@PRINT@@ cases", Cardinality(Cases)>>)
